@@ -353,14 +353,25 @@ def lc_cases(draw, tier="quick"):
     loc_kind = draw(st.sampled_from(["zero", "scalar", "vector"]))
     loc = draw(st.lists(fl, min_size=dim, max_size=dim)) if loc_kind == "vector" else \
         (draw(fl) if loc_kind == "scalar" else 0.0)
-    x = draw(st.lists(fl, min_size=dim, max_size=dim))
     scale = float(10 ** draw(st.floats(-2, 2, allow_nan=False, width=64)))
+    if draw(st.integers(0, 9)) == 0:
+        # several hundred nodes (products of that many densities leave the double range; sums of their logarithms do not):
+        # the field comes from a seeded stream instead of generated entries
+        n = draw(st.sampled_from([400, 700])) if pd == 1 else draw(st.sampled_from([18, 26]))
+        dim = n if pd == 1 else n * n
+        loc = draw(fl) if loc_kind != "zero" else 0.0
+        xs = draw(st.integers(0, 10 ** 6))
+        x = [float(v) for v in np.random.RandomState(xs).uniform(-3, 3, dim)]
+        return {"fam": fam, "pd": pd, "n": n, "bc": bc, "order": 1, "loc": loc, "x": x, "scale": scale, "large": True}
+    x = draw(st.lists(fl, min_size=dim, max_size=dim))
     return {"fam": fam, "pd": pd, "n": n, "bc": bc, "order": 1, "loc": loc, "x": x, "scale": scale}
 
 
 def run_lc(c, rec):
     import cuqi
     tags = dict(tags_of(c), fam=c["fam"])
+    if c.get("large"):
+        tags["large"] = True
     if rec.classify(tags, c["n"] >= 3):
         return
     n, bc, pd = c["n"], c["bc"], c["pd"]
